@@ -28,12 +28,16 @@ LEVEL_NOTE = ("Trusted: Lean kernel (standard axioms); the sub-initializer (LowR
               "excluded); hand model <-> code beyond the explored inputs (AST fingerprint flags any change of the validation code).")
 LEAN_TARGETS = ["QclibModel.Props.C14"]
 THEOREMS = ["Qclib.C14_reduced", "Qclib.C14_index", "Qclib.C14_incircuit", "Qclib.C14_ctrl", "Qclib.C14_reject",
-            "Qclib.C14_reject_kinds", "Qclib.C14_uniform", "Qclib.C14_width"]
+            "Qclib.C14_reject_kinds", "Qclib.C14_uniform", "Qclib.C14_width", "Qclib.C14_width_src"]
 TRUSTED = [
     "sub-initializer meets C01 (prepares the vector it is given from |0..0>) and qiskit .control(ctrl_state) acts iff the controls read ctrl_state (hypotheses of C14_incircuit; exercised by the oracle each run)",
     "np.kron index convention kron(A,B)[x*len(B)+j] = A[x]*B[j] and qiskit little-endian wire order (checked numerically each run)",
     "math.isclose = CPython math_isclose_impl (modelled statement by statement, tied on doubles incl. NaN/inf); builtin sum ~ left fold",
     "int(ceil(log2(k))) = least a with k <= 2^a for k < 2^48 (tied for k <= 4096 and 2^m-1, 2^m, 2^m+1, m <= 40)",
+    "tools/py2lean.py: InitializeMixed._get_num_qubits and the _num_ctrl_qubits statement of MixedInitialize.__init__ are "
+    "re-translated from the source on every run (Gen/MixedWidth.lean) and proved equal to numQubits / clog2 for all d, k >= 1 "
+    "(C14_width_src); second tie: the generated definitions run by the driver vs the real code (same k range as the width tie, "
+    "real constructors for k <= 33)",
 ]
 ASSUMPTIONS = ["exact arithmetic in the theorems; implementation compared to 1e-9 (tie) / 1e-7 (oracle)",
                "in-circuit purification requires n>=2 and k>=2 (property precondition; smaller cases raise inside qiskit/.control)",
@@ -93,9 +97,39 @@ def fingerprint():
     return hashlib.sha256("\n".join(parts).encode()).hexdigest(), parts
 
 
+GEN_FILE_REL = "lean/QclibModel/Gen/MixedWidth.lean"
+GEN_SOURCES = ["qclib/gates/initialize_mixed.py", "qclib/state_preparation/mixed.py"]
+
+
+def generate_widths(ctx):
+    """Source tie of the width arithmetic: re-translate it (tools/py2lean.py) and re-check C14_width_src."""
+    import framework
+    import py2lean
+    import srctie
+    py2lean.ensure_prelude(framework.LEAN)
+    ns = "Qclib.Gen.MixedWidth"
+    a, m = GEN_SOURCES
+
+    def tb(rel, *args, **k):
+        return py2lean.translate_block(os.path.join(framework.REPO, rel), *args, relpath=rel, **k)
+    blocks = [
+        tb(a, "InitializeMixed._get_num_qubits", "mixed_num_qubits", ns, result="self.num_qubits",
+           views={"len(params[0])": "len_params_0", "len(params)": "len_params"}),
+        tb(m, "MixedInitialize.__init__", "mixed_num_ctrl", ns, result="self._num_ctrl_qubits",
+           views={"len(params)": "len_params"}),
+    ]
+    text = py2lean.write_module(os.path.join(framework.VERIF, GEN_FILE_REL), blocks, GEN_SOURCES)
+    srctie.verify(ctx, "QclibModel.Props.C14", ["Qclib.C14_width_src"])
+    return {"file": GEN_FILE_REL, "bytes": len(text),
+            "translated": ["InitializeMixed._get_num_qubits", "MixedInitialize.__init__ (self._num_ctrl_qubits)"]}
+
+
 def generate(ctx):
     """Tie (b): the validation statements of the current source must be the ones the hand model
-    mirrors.  A change raises (→ broken obligation → failing-input search)."""
+    mirrors.  A change raises (→ broken obligation → failing-input search).  The width arithmetic is
+    additionally re-translated from the source (generate_widths) — first, so that its own broken obligation is
+    recorded even when the fingerprint raises."""
+    gen = generate_widths(ctx)
     h, parts = fingerprint()
     if h != EXPECTED_FINGERPRINT:
         import framework
@@ -106,7 +140,7 @@ def generate(ctx):
         raise RuntimeError("C14: validation code of MixedInitialize.__init__/_get_num_qubits changed "
                            f"(fingerprint {h[:16]} != {EXPECTED_FINGERPRINT[:16]}); the hand model "
                            "Model/Mixed.lean no longer mirrors the source. Current text:\n" + "\n".join(txt)[:1500])
-    return {"validation_ast_fingerprint": h, "statements": len(parts)}
+    return dict(gen, validation_ast_fingerprint=h, statements=len(parts))
 
 
 # ----------------------------------------------------------------------------------------------
@@ -455,6 +489,27 @@ def run_widths(ctx, kdense):
             a = int(math.ceil(math.log2(k)))        # the expression assigned to _num_ctrl_qubits
             lines.append(f"nq {k} {o.num_qubits} {a} ;")
         ctx.tie({"op": "width", "dim": d, "ks": ks}, lines, label=f"width dim={d} ks=1..{kdense},2^m±1")
+        # second tie of the translation (Gen/MixedWidth.lean): num_qubits of the real _get_num_qubits; the control count of
+        # the real constructor is compared below for small k (a wide k needs k real state vectors)
+        ctx.tie({"op": "gen_width", "dim": d, "ks": ks}, [" ".join(l.split()[:3]) for l in lines],
+                label=f"translated width dim={d}",
+                compare=lambda op, impl, model: None if impl == [" ".join(l.split()[:3]) for l in model] else
+                next((f"impl={a!r} generated={b!r}" for a, b in zip(impl, model) if a != " ".join(b.split()[:3])), "length"))
+    from qclib.state_preparation.mixed import MixedInitialize
+    for d in (2, 4, 8):
+        ks2 = list(range(1, 34))
+        lines = []
+        for k in ks2:
+            st = np.zeros(d)
+            st[0] = 1.0
+            try:
+                g = MixedInitialize([st] * k)
+                lines.append(f"nq {k} {g.num_qubits} {g._num_ctrl_qubits} ;")
+            except Exception as e:
+                lines.append(f"nq {k} raised {type(e).__name__} ;")
+        ctx.tie({"op": "gen_width", "dim": d, "ks": ks2}, lines, label=f"translated width / control count, real constructor dim={d}",
+                compare=lambda op, impl, model: None if impl == model else
+                next((f"impl={a!r} generated={b!r}" for a, b in zip(impl, model) if a != b), "length"))
 
 
 # ----------------------------------------------------------------------------------------------
